@@ -257,9 +257,9 @@ WKDim(A, v) ==
     ELSE CHOOSE j \in 1..Len(A):
             /\ ~WIsZero(WGramDet(WKrylov(A, v, j)))
             /\ (j = Len(A) \/ WIsZero(WGramDet(WKrylov(A, v, j + 1))))
-\* [n2/d2 = rho2_m, x_m = xn/xd, j = dimension of the space used]
-WGmresOptJ(A, b, x0, r0, j) ==
-    IF j = 0 THEN [n2 |-> WDot(r0, r0), d2 |-> WInt(1), xn |-> x0, xd |-> WInt(1), j |-> 0]
+\* [n2/d2 = rho2_m, x_m = xn/xd, j = dimension of the space used, kd = dimension of the full Krylov space]
+WGmresOptJ(A, b, x0, r0, j, kd) ==
+    IF j = 0 THEN [n2 |-> WDot(r0, r0), d2 |-> WInt(1), xn |-> x0, xd |-> WInt(1), j |-> 0, kd |-> kd]
     ELSE LET K == WKrylov(A, r0, j)
              AK == WMatMul(A, K)
              G == WGram(AK)
@@ -268,13 +268,16 @@ WGmresOptJ(A, b, x0, r0, j) ==
              yn == [i \in 1..j |-> WDet(WReplaceCol(G, i, c))]
              AKr == WOfCols(WPowerCols(A, WMatVec(A, r0), j) \o <<r0>>)
          IN [n2 |-> WGramDet(AKr), d2 |-> D,
-             xn |-> WVecAdd(WVecScale(D, x0), WMatVec(K, yn)), xd |-> D, j |-> j]
-WGmresOpt(Am, bm, x0m, m) ==
+             xn |-> WVecAdd(WVecScale(D, x0), WMatVec(K, yn)), xd |-> D, j |-> j, kd |-> kd]
+\* kd0 >= 0: the dimension of the full Krylov space if already known (it does not depend on m), -1: evaluate it
+WGmresOptKd(Am, bm, x0m, m, kd0) ==
     LET A == WOfMat(Am)
         b == WVecOfMat(bm)
         x0 == WVecOfMat(x0m)
         r0 == WVecSub(b, WMatVec(A, x0))
-    IN WGmresOptJ(A, b, x0, r0, Min2(m, WKDim(A, r0)))
+        kd == IF kd0 >= 0 THEN kd0 ELSE WKDim(A, r0)
+    IN WGmresOptJ(A, b, x0, r0, Min2(m, kd), kd)
+WGmresOpt(Am, bm, x0m, m) == WGmresOptKd(Am, bm, x0m, m, -1)
 
 ---------------------------------------------------------------------------
 (* singular value decompositions given by exact factors *)
